@@ -111,7 +111,10 @@ def impl_validate(state, bs):
     from lomond.utf8validator import Utf8Validator
     v = Utf8Validator()
     v._state = state
-    valid, ends, cur, total = v.validate(bytes(bs))
+    try:
+        valid, ends, cur, total = v.validate(bytes(bs))
+    except Exception as e:      # the validator is total: whatever it raises is a verdict it failed to give
+        return "raised " + type(e).__name__, False, -1
     return v._state, bool(valid), cur
 
 
@@ -184,6 +187,10 @@ def run(rep, info, model, tier, seed):
         m_st, m_valid, m_idx = a[0], bool(a[1]), (a[2][0] if a[2] else len(bs))
         rep.add_case(("A", s, bs), nontrivial=True)
         nA += 1
+        if isinstance(st, str):
+            rep.violation("Utf8Validator.validate %s on the bytes %s from state %d: no verdict, the exception leaves WebSocket.feed" % (st, bs.hex(), s),
+                          scenario=dict(kind="validate", state=s, data=bs.hex()), expected="a verdict", actual=st, family="A:state-x-short-strings")
+            continue
         if (st, valid, cur) != (m_st, m_valid, m_idx):
             # model and implementation differ: decide with the independent oracle on the whole-string level
             _judge_validator(rep, s, bs, (st, valid, cur), (m_st, m_valid, m_idx), "A:state-x-short-strings")
@@ -208,6 +215,11 @@ def run(rep, info, model, tier, seed):
         m_st, m_valid, m_idx = a[0], bool(a[1]), (a[2][0] if a[2] else len(bs))
         rep.add_case(bs, nontrivial=len(bs) > 0)
         rep.traces_vs_impl += 1
+        if isinstance(st, str):
+            nviol += 1
+            rep.violation("Utf8Validator.validate %s on the bytes %s: no verdict, the exception leaves WebSocket.feed" % (st, bs.hex()),
+                          scenario=dict(kind="validate", state=0, data=bs.hex()), expected="a verdict", actual=st, family="B:random-strings")
+            continue
         # independent oracle
         try:
             txt = bs.decode("utf-8")
@@ -322,8 +334,23 @@ def delivery_families(rep, model, tier, rnd):
         if off is None:
             continue
         payload = payload + b"trailing bytes that never arrive"
-        mode = rnd.choice(["single", "fragmented", "ctrl-between", "ctrl-between"])
-        if mode == "single":
+        mode = rnd.choice(["single", "fragmented", "ctrl-between", "ctrl-between", "many-fragments", "many-fragments"])
+        if mode == "many-fragments":
+            # three to five fragments, the offending byte in the last one that arrives (whatever was validated so far, the
+            # bookkeeping must still know that a text message is open)
+            nf = rnd.choice([3, 3, 4, 5])
+            ks = sorted(rnd.randrange(0, off + 1) for _ in range(nf - 1))
+            pieces = [payload[:ks[0]]] + [payload[a:b] for a, b in zip(ks, ks[1:])]
+            body = b""
+            for i, pc in enumerate(pieces):
+                body += E(1 if i == 0 else 0, pc, fin=0)
+                if rnd.random() < 0.3:
+                    body += E(9, b"p")
+            last = payload[ks[-1]:]
+            hdrl = 2 if len(last) < 126 else 4
+            cut = len(body) + hdrl + (off - ks[-1]) + 1
+            body += E(0, last, fin=1)
+        elif mode == "single":
             body = E(1, payload)
             hdr = 2 if len(payload) < 126 else 4
             cut = hdr + off + 1
@@ -345,7 +372,7 @@ def delivery_families(rep, model, tier, rnd):
         rep.count("failfast.mode", mode)
 
     fam.run_family(rep, model, "C05:fail-fast", ff, ff_oracle, project=fam.no_waits,
-                   rule="uncompressed text whose payload has a first offending byte (computed by an independent viability oracle): the stream is delivered up to and including that byte -- single frame, fragmented, or with a Ping between the fragments -- and then stalls; the ProtocolError must already have been raised")
+                   rule="uncompressed text whose payload has a first offending byte (computed by an independent viability oracle): the stream is delivered up to and including that byte -- single frame, two to five fragments, with or without Pings between them -- and then stalls; the ProtocolError must already have been raised")
 
 
 def _judge_validator(rep, s, bs, impl, mod, fam):
@@ -386,6 +413,11 @@ def replay(body):
         off = first_offending(bs)
         print("input", bs.hex(), "impl: state=%s valid=%s index=%s" % (st, valid, cur), "oracle: first offending byte index =", off)
         exp = body.get("expected") or {}
+        if isinstance(st, str):
+            print("REPLAY: VIOLATION reproduced: the validator %s" % st)
+            return 1
+        if not isinstance(exp, dict):
+            exp = {}
         if sc["state"] != 0:
             # a run from another automaton state: judged against the expectation stored with the input
             ok = (valid == exp.get("valid", valid)) and (st == exp.get("state", st))
